@@ -230,9 +230,11 @@ Proof.
   assert (H1 : VR s1 s).
   { subst s1. destruct c; try apply VR_refl; apply VR_core, update_gateway_services_core. }
   clearbody s1.
-  set (s2 := match c with CDefaults true => _ | _ => s1 end) in He.
+  set (s2 := match c with CDefaults true => _ | CDefaults false => _ | _ => s1 end) in He.
   assert (H2 : VR s2 s).
-  { subst s2. destruct c as [| |[]|]; try exact H1. cbv zeta.
+  { subst s2. destruct c as [| |[]|]; try exact H1.
+    2:{ destruct (bool_decide _); [|exact H1]. cbv zeta. eapply VR_trans; [apply VR_core, drop_destination_core|exact H1]. }
+    cbv zeta.
     eapply VR_trans; [apply VR_core, upsert_ksn_core|]. eapply VR_trans; [|exact H1]. apply VR_core.
     eapply same_core_trans; [apply check_gateway_and_update_core|apply check_gateway_wildcards_and_update_core]. }
   clearbody s2.
